@@ -1,7 +1,9 @@
-//! C14 (probe): the response writers against a reference printer; formatting NOT stubbed.
+//! C14: the response writers and `AspartixWriter::write_framework` against a reference printer / reader.
+//! Formatting is NOT stubbed here (`write!` goes through `core::fmt`, which CBMC handles at these sizes).
 use crate::nd;
-use crate::require;
-use crustabri::io::{Iccma23Writer, ResponseWriter};
+use crate::{reached, require};
+use crustabri::aa::AAFramework;
+use crustabri::io::{AspartixWriter, Iccma23Writer, ResponseWriter};
 use crustabri::verif_hooks as hooks;
 
 fn ref_usize(mut v: usize, out: &mut Vec<u8>) {
@@ -21,48 +23,189 @@ fn ref_usize(mut v: usize, out: &mut Vec<u8>) {
     }
 }
 
-#[cfg_attr(kani, kani::proof)]
-#[cfg_attr(kani, kani::stub(std::backtrace::Backtrace::capture, crate::util::bt_stub))]
-#[cfg_attr(kani, kani::stub(<anyhow::Error as std::ops::Drop>::drop, crate::util::noop_err_drop))]
-#[cfg_attr(kani, kani::unwind(6))]
-pub fn c14_p_iccma_status() {
-    let w = Iccma23Writer::default();
-    let st = nd::bool_();
-    let mut buf: Vec<u8> = Vec::new();
-    let r = w.write_acceptance_status(&mut buf, st);
-    require!(r.is_ok(), "C14: writing into memory succeeds");
-    let want: &[u8] = if st { b"YES\n" } else { b"NO\n" };
-    require!(buf.len() == want.len(), "C14: acceptance statuses are exactly the lines YES and NO (length)");
-    let mut same = true;
-    for i in 0..want.len() {
-        same = same & (buf[i] == want[i]);
+fn same_bytes(got: &[u8], want: &[u8]) -> bool {
+    let mut same = got.len() == want.len();
+    let mut i = 0;
+    while i < want.len() && i < got.len() {
+        same = same & (got[i] == want[i]);
+        i += 1;
     }
-    require!(same, "C14: acceptance statuses are exactly the lines YES and NO");
-    std::mem::forget(r);
+    same
 }
 
-#[cfg_attr(kani, kani::proof)]
-#[cfg_attr(kani, kani::stub(std::backtrace::Backtrace::capture, crate::util::bt_stub))]
-#[cfg_attr(kani, kani::stub(<anyhow::Error as std::ops::Drop>::drop, crate::util::noop_err_drop))]
-#[cfg_attr(kani, kani::unwind(8))]
-pub fn c14_p_iccma_ext1() {
-    let w = Iccma23Writer::default();
-    let label = nd::below_capped(100, 100) as usize;
-    let a = hooks::new_argument(0, label);
-    let ext = [&a];
+/// reference reader of the ICCMA'23 witness line: "w" (" " number)* "\n" -> the numbers
+fn read_back_iccma(b: &[u8]) -> Option<Vec<usize>> {
+    if b.len() < 2 || b[0] != b'w' || b[b.len() - 1] != b'\n' {
+        return None;
+    }
+    let mut out = Vec::new();
+    let mut i = 1;
+    while i < b.len() - 1 {
+        if b[i] != b' ' {
+            return None;
+        }
+        i += 1;
+        let mut v = 0usize;
+        let mut nd = 0;
+        while i < b.len() - 1 && b[i] >= b'0' && b[i] <= b'9' {
+            v = v * 10 + (b[i] - b'0') as usize;
+            i += 1;
+            nd += 1;
+        }
+        if nd == 0 {
+            return None;
+        }
+        out.push(v);
+    }
+    Some(out)
+}
+
+fn status(iccma: bool) {
+    let st = nd::bool_();
     let mut buf: Vec<u8> = Vec::new();
-    let r = w.write_single_extension(&mut buf, &ext[..]);
+    let r = if iccma {
+        Iccma23Writer::default().write_acceptance_status(&mut buf, st)
+    } else {
+        AspartixWriter::default().write_acceptance_status(&mut buf, st)
+    };
+    require!(r.is_ok(), "C14: writing into memory succeeds");
+    let want: &[u8] = if st { b"YES\n" } else { b"NO\n" };
+    require!(same_bytes(&buf, want), "C14: acceptance statuses are exactly the lines YES and NO");
+    std::mem::forget(r);
+    let mut buf2: Vec<u8> = Vec::new();
+    let r2 = if iccma {
+        Iccma23Writer::default().write_no_extension(&mut buf2)
+    } else {
+        AspartixWriter::default().write_no_extension(&mut buf2)
+    };
+    require!(r2.is_ok(), "C14: writing into memory succeeds");
+    require!(same_bytes(&buf2, b"NO\n"), "C14: 'no extension' is exactly the line NO");
+    std::mem::forget(r2);
+}
+
+/// an extension of 0..=2 arguments with arbitrary labels below 1000, in arbitrary order
+fn iccma_extension() {
+    let w = Iccma23Writer::default();
+    let len = nd::below(3) as usize;
+    let l0 = nd::below_capped(1000, 12) as usize;
+    let l1 = nd::below_capped(1000, 12) as usize;
+    let a0 = hooks::new_argument(0, l0);
+    let a1 = hooks::new_argument(1, l1);
+    let all = [&a0, &a1];
+    let mut buf: Vec<u8> = Vec::new();
+    let r = w.write_single_extension(&mut buf, &all[..len]);
     require!(r.is_ok(), "C14: writing into memory succeeds");
     let mut want: Vec<u8> = Vec::new();
     want.push(b'w');
-    want.push(b' ');
-    ref_usize(label, &mut want);
-    want.push(b'\n');
-    require!(buf.len() == want.len(), "C14: one line 'w' followed by the space-separated labels (length)");
-    let mut same = true;
-    for i in 0..want.len().min(buf.len()) {
-        same = same & (buf[i] == want[i]);
+    if len >= 1 {
+        want.push(b' ');
+        ref_usize(l0, &mut want);
     }
-    require!(same, "C14: one line 'w' followed by the space-separated labels");
+    if len >= 2 {
+        want.push(b' ');
+        ref_usize(l1, &mut want);
+    }
+    want.push(b'\n');
+    require!(same_bytes(&buf, &want), "C14: an ICCMA'23 extension is one line 'w' followed by the space-separated labels, nothing else");
+    let back = read_back_iccma(&buf);
+    match back {
+        Some(v) => {
+            require!(v.len() == len, "C14: the witness line reads back to as many labels as were written");
+            if len >= 1 {
+                require!(v[0] == l0, "C14: the witness line reads back to the labels written");
+            }
+            if len >= 2 {
+                require!(v[1] == l1, "C14: the witness line reads back to the labels written");
+            }
+        }
+        None => require!(false, "C14: the witness line reads back"),
+    }
+    reached!(len == 2, "an extension of two arguments");
     std::mem::forget(r);
 }
+
+const NAMES: [&str; 3] = ["a", "b1", "_x"];
+
+/// an Aspartix extension of 0..=2 arguments with labels chosen among three identifiers
+fn apx_extension() {
+    let w = AspartixWriter::default();
+    let len = nd::below(3) as usize;
+    let i0 = nd::below(3) as usize;
+    let i1 = nd::below(3) as usize;
+    let a0 = hooks::new_argument(0, NAMES[i0].to_string());
+    let a1 = hooks::new_argument(1, NAMES[i1].to_string());
+    let all = [&a0, &a1];
+    let mut buf: Vec<u8> = Vec::new();
+    let r = w.write_single_extension(&mut buf, &all[..len]);
+    require!(r.is_ok(), "C14: writing into memory succeeds");
+    let mut want: Vec<u8> = Vec::new();
+    want.push(b'[');
+    if len >= 1 {
+        want.extend_from_slice(NAMES[i0].as_bytes());
+    }
+    if len >= 2 {
+        want.push(b',');
+        want.extend_from_slice(NAMES[i1].as_bytes());
+    }
+    want.push(b']');
+    want.push(b'\n');
+    require!(same_bytes(&buf, &want), "C14: an Aspartix extension is one bracketed comma-separated list, nothing else");
+    std::mem::forget(r);
+}
+
+/// a, b, c with a->b, b->c, c->a, b->b; one (symbolic) argument removed; the written file must list exactly the
+/// live arguments in creation order and the live attacks in insertion order
+fn apx_framework() {
+    let names = ["a", "b", "c"];
+    let mut af: AAFramework<String> = AAFramework::default();
+    for n in names.iter() {
+        af.new_argument(n.to_string());
+    }
+    let atts = [(0usize, 1usize), (1, 2), (2, 0), (1, 1)];
+    for (i, j) in atts.iter() {
+        af.new_attack(&names[*i].to_string(), &names[*j].to_string()).unwrap();
+    }
+    let removed = nd::below(3) as usize;
+    af.remove_argument(&names[removed].to_string()).unwrap();
+    let mut buf: Vec<u8> = Vec::new();
+    let r = AspartixWriter::default().write_framework(&af, &mut buf);
+    require!(r.is_ok(), "C14: writing into memory succeeds");
+    let mut want: Vec<u8> = Vec::new();
+    for (k, n) in names.iter().enumerate() {
+        if k != removed {
+            want.extend_from_slice(b"arg(");
+            want.extend_from_slice(n.as_bytes());
+            want.extend_from_slice(b").\n");
+        }
+    }
+    for (i, j) in atts.iter() {
+        if *i != removed && *j != removed {
+            want.extend_from_slice(b"att(");
+            want.extend_from_slice(names[*i].as_bytes());
+            want.push(b',');
+            want.extend_from_slice(names[*j].as_bytes());
+            want.extend_from_slice(b").\n");
+        }
+    }
+    require!(same_bytes(&buf, &want), "C14: the written framework lists exactly the live arguments (in order) and the live attacks");
+    std::mem::forget(r);
+    std::mem::forget(af);
+}
+
+macro_rules! writer_harness {
+    ($name:ident, $unwind:literal, $body:expr) => {
+        #[cfg_attr(kani, kani::proof)]
+        #[cfg_attr(kani, kani::stub(std::backtrace::Backtrace::capture, crate::util::bt_stub))]
+        #[cfg_attr(kani, kani::stub(<anyhow::Error as std::ops::Drop>::drop, crate::util::noop_err_drop))]
+        #[cfg_attr(kani, kani::unwind($unwind))]
+        pub fn $name() {
+            $body
+        }
+    };
+}
+
+writer_harness!(c14_q_iccma_status, 6, status(true));
+writer_harness!(c14_q_apx_status, 6, status(false));
+writer_harness!(c14_q_iccma_extension, 8, iccma_extension());
+writer_harness!(c14_q_apx_extension, 8, apx_extension());
+writer_harness!(c14_q_apx_framework, 12, apx_framework());
